@@ -293,8 +293,8 @@ def decided_by(g, guard_sets, residual=None):
         for s_ in unknown:
             if not residual(cond_true(norm(g.exit_term(s_)))):
                 return False
-    elif not trues:
-        return False
+    elif not trues or residual is not None:
+        return False          # (with `residual`, the last conjunct must really be what is returned on the accepting paths)
     comp = []
     for gs in guard_sets:
         te = set(edges(gs))
